@@ -829,6 +829,52 @@ pub fn run(ctx: &mut Ctx) {
         }
         ctx.shape(&("S11", idx / 7, lc(n)));
     });
+    // ------------------------------------------------ S12: a message whose defragmentation COMPLETES with the buffer just below the
+    // 10 MiB limit, and then, on the same parser, records that parse on their own (returned without buffering, also
+    // right after the largest possible completed message), fragmented small messages, reset, and the same again
+    ctx.floor("s12.histories", 8);
+    ctx.sweep("S12-near-cap-completed-then-standalone", 8, |ctx, idx| {
+        let mut r = Rng::new(idx ^ 0x512_512);
+        let total = [MAX - 1, MAX - 2, MAX - 3, MAX - 100, MAX - 16384, MAX - 65535, MAX - 65536, MAX - 70000][idx as usize];
+        let blen = total - 4;
+        let mut payload = match gen::lazy_zeroed(total) {
+            Some(b) => b,
+            None => {
+                ctx.unjudged("giant-record-not-allocatable");
+                return;
+            }
+        };
+        payload[..4].copy_from_slice(&[20, (blen >> 16) as u8, (blen >> 8) as u8, blen as u8]);
+        let mut ops: Vec<Op> = Vec::new();
+        let after = |r: &mut Rng, ops: &mut Vec<Op>| {
+            ops.push(Op::rec(0x16, AHs::HelloRequest.to_bytes()));
+            ops.push(Op::rec(0x17, r.bytes(100)));
+            ops.push(Op::rec(0x18, AMsg::Heartbeat { ty: 1, payload: r.bytes(5), padding: r.bytes(16) }.to_bytes()));
+            ops.push(Op::rec(0x14, vec![1]));
+            ops.push(Op::rec(0x15, vec![1, 0]));
+            ops.push(Op::Rec { ty: 0x17, ver: 0x0303, data: r.bytes(3), len: 0xffff });
+            let d = AHs::ServerDone(vec![]).to_bytes();
+            ops.push(Op::NoCopy { ty: 0x16, ver: 0x0303, data: d.clone(), len: d.len() as u16 });
+            let m = AHs::Finished(r.bytes(12)).to_bytes();
+            ops.push(Op::rec(0x16, m[..5].to_vec()));
+            ops.push(Op::rec(0x16, m[5..].to_vec()));
+            ops.push(Op::rec(0x16, AHs::HelloRequest.to_bytes()));
+        };
+        for round in 0..2 {
+            for c in payload.chunks(16384) {
+                ops.push(Op::rec(0x16, c.to_vec()));
+            }
+            after(&mut r, &mut ops);
+            if round == 0 {
+                ops.push(Op::Reset);
+                after(&mut r, &mut ops);
+            }
+        }
+        if run_history(ctx, "S12", &ops) {
+            ctx.count("s12.histories");
+        }
+        ctx.shape(&("S12", idx));
+    });
     ctx.sweep("S8-giant-first-fragment", 6, |ctx, idx| {
         let n = [MAX - 1, MAX, MAX + 1, MAX + 16384, 1 << 24, (1 << 24) + 3][idx as usize];
         let mut first = match gen::lazy_zeroed(n) {
